@@ -405,11 +405,9 @@ def watchdog(ctx):
         fn.slots(o)[sf] = Sym("start", "num", uid=0)
         for k in zero_fields:
             fn.slots(o)[k] = Sym("anchor_" + k, "num", uid=0)
-        for k, v in fn.slots(o).items():
-            from ..values import ListV
-
-            if isinstance(v, ListV):
-                fn.slots(o)[k] = ListOf((Sym("epoch", "str", tag="nonnull"), Sym("t", "num")), label="epochs")
+        # 0, 1 or 2 epochs recorded through the public API (whatever record type the class keeps them in)
+        for j in range(it.choose(3, "epochs recorded")):
+            it.call(it.getattr(o, "addEpoch"), [Sym(f"epoch{j}", "str", tag="nonnull", uid=0)], {})
         n0 = len(it.trace)
         it.call(it.getattr(o, "printIfExpired"), [], {})
         warns = [e for e in it.trace[n0:] if e.kind == "ext" and e.name.endswith(".warning")]
